@@ -82,6 +82,24 @@ GROUPS.append(red_group("zz_red.mont.n1.reduced", "h_red_mont", 1, 2, MONT, time
 GROUPS.append(red_group("zz_red.crand.n2.reduced", "h_red_crand", 2, 2, CRAND, timeout=200, tier="thorough", required=False,
                         note="attempted, as above"))
 
+UXX = ["src/core/u16.c", "src/core/u32.c", "src/core/u64.c", "src/core/mem.c", "src/core/word.c"]
+for w in (16, 32, 64):
+    fns = ["u%d%s" % (w, f) for f in ("Rev", "Bitrev", "Weight", "Parity", "CTZ", "CTZ_fast", "CLZ", "CLZ_fast", "Shuffle", "Deshuffle", "RotHi", "RotLo")]
+    GROUPS.append(G("uxx.w%d" % w, "harness/C05/uxx.c", "h_uxx", UXX, defs=["W=%d" % w], level="Pc", unwind=w + 2, spec_unwind=w + 2,
+                    search=50000, split=True, fn=fns, note="complete over all 2^%d words (loops bounded by the word width)" % w))
+    GROUPS.append(G("uxx_neginv.w%d" % w, "harness/C05/uxx.c", "h_uxx_neginv", UXX, defs=["W=%d" % w], level="Pc",
+                    unwind=w + 2, search=200000, fn=["u%dNegInv" % w], backend="sat" if w < 64 else "portfolio",
+                    required=(w == 16), timeout=300, tier="quick" if w == 16 else "thorough",
+                    extra=["--no-standard-checks"] if w == 64 else [],
+                    note="multiplier fact: complete for 16 bit; 32/64 bit attempted only (no back end answers)"))
+    if w > 16:
+        GROUPS.append(G("uxx_neginv.w%d.search" % w, "harness/C05/uxx.c", "h_uxx_neginv", UXX, defs=["W=%d" % w], level="N",
+                        backend="native", search=2000000, fn=["u%dNegInv" % w], note="native search stand-in; NOT proof"))
+    for cnt in sorted({0, 1, w // 8 - 1, w // 8, w // 8 + 1, 2 * w // 8 + 1}):
+        GROUPS.append(G("uxx_fromto.w%d.cnt%d" % (w, cnt), "harness/C05/uxx.c", "h_uxx_fromto", UXX, defs=["W=%d" % w, "CNT=%d" % cnt],
+                        level="B", bound="octet count <= 2 words + 1", unwind=cnt + 10, spec_unwind=cnt + 10, search=20000,
+                        fn=["u%dFrom" % w, "u%dTo" % w]))
+
 # ---- unbounded contract groups (dfcc + loop contracts), symbolic n ---------------------
 def L(assigns, inv, dec="n - i"):
     return dict(assigns=assigns, inv=inv, dec=dec)
